@@ -277,9 +277,13 @@ func TestReplay(t *testing.T) {
 		Inconcl  int      `json:"inconclusive"`
 		Verdict  *Verdict `json:"verdict,omitempty"`
 	}{}
-	for i := 0; i < n; i++ {
+	slow := 0
+	for i := 0; i < n && slow < 2; i++ {
 		v := ev.eval(c, true)
 		out.Runs++
+		if strings.Contains(v.Reason, "real-time watchdog") || strings.Contains(v.Reason, "real clock") {
+			slow++ // each such run takes minutes: two are enough
+		}
 		if os.Getenv("VERIF_REPLAY_TRACE") != "" && i == 0 {
 			for _, l := range v.Trace {
 				fmt.Println(l)
